@@ -245,98 +245,131 @@ func (a *IntervalAnalyzer) refine(v ssa.Value, r Interval, ctx *ssa.BasicBlock) 
 		if !ok || len(b.Preds) != 1 || b.Preds[0] != idom {
 			continue
 		}
-		cmp, ok := iff.Cond.(*ssa.BinOp)
-		if !ok {
-			continue
-		}
 		taken := idom.Succs[0] == b
-		op := cmp.Op
-		var k int64
-		if cmp.X == v {
-			kk, okK := ConstInt(cmp.Y)
-			if !okK {
-				// v < Y with Y in a known interval: v <= Y.Hi-1 on the taken edge
-				if taken && (op == token.LSS || op == token.LEQ) && cmp.Y != v {
-					yi := a.evalAt(cmp.Y, idom, 20)
-					if yi.Known && r.Known {
-						if op == token.LSS {
-							r.Hi = min64(r.Hi, yi.Hi-1)
-						} else {
-							r.Hi = min64(r.Hi, yi.Hi)
-						}
+		switch cond := iff.Cond.(type) {
+		case *ssa.BinOp:
+			r = a.applyCmp(v, r, cond, taken, idom)
+		case *ssa.Phi:
+			// short-circuit &&: phi(c2 | false) is true only if c2 holds and the block
+			// that evaluated c2 was reached; || : phi(c2 | true) is false only if c2 is false.
+			var expr ssa.Value
+			var from *ssa.BasicBlock
+			constVal, nConst := false, 0
+			for i, e := range cond.Edges {
+				if bv, isB := ConstBool(e); isB {
+					constVal = bv
+					nConst++
+				} else {
+					expr = e
+					from = cond.Block().Preds[i]
+				}
+			}
+			if expr == nil || nConst != len(cond.Edges)-1 {
+				continue
+			}
+			if cmp, isCmp := expr.(*ssa.BinOp); isCmp {
+				if taken && !constVal {
+					r = a.applyCmp(v, r, cmp, true, from)
+					r = a.refine(v, r, from)
+				} else if !taken && constVal {
+					r = a.applyCmp(v, r, cmp, false, from)
+					r = a.refine(v, r, from)
+				}
+			}
+		}
+	}
+	return r
+}
+
+func (a *IntervalAnalyzer) applyCmp(v ssa.Value, r Interval, cmp *ssa.BinOp, taken bool, at *ssa.BasicBlock) Interval {
+	op := cmp.Op
+	var k int64
+	if cmp.X == v {
+		kk, okK := ConstInt(cmp.Y)
+		if !okK {
+			// v < Y with Y in a known interval: v <= Y.Hi-1 on the taken edge
+			if taken && (op == token.LSS || op == token.LEQ) && cmp.Y != v {
+				yi := a.evalAt(cmp.Y, at, 20)
+				if yi.Known && r.Known {
+					if op == token.LSS {
+						r.Hi = min64(r.Hi, yi.Hi-1)
+					} else {
+						r.Hi = min64(r.Hi, yi.Hi)
 					}
 				}
-				continue
 			}
-			k = kk
-		} else if cmp.Y == v {
-			kk, okK := ConstInt(cmp.X)
-			if !okK {
-				continue
-			}
-			k = kk
-			switch op {
-			case token.LSS:
-				op = token.GTR
-			case token.GTR:
-				op = token.LSS
-			case token.LEQ:
-				op = token.GEQ
-			case token.GEQ:
-				op = token.LEQ
-			}
-		} else {
-			continue
+			return r
 		}
-		if !taken {
-			switch op {
-			case token.EQL:
-				op = token.NEQ
-			case token.NEQ:
-				op = token.EQL
-			case token.LSS:
-				op = token.GEQ
-			case token.GEQ:
-				op = token.LSS
-			case token.GTR:
-				op = token.LEQ
-			case token.LEQ:
-				op = token.GTR
-			}
+		k = kk
+	} else if cmp.Y == v {
+		kk, okK := ConstInt(cmp.X)
+		if !okK {
+			return r
 		}
-		if !r.Known {
-			// comparisons alone can establish a bound for unsigned values
-			if isUnsignedT(v.Type()) {
-				switch op {
-				case token.LSS:
-					r = Interval{0, k - 1, true}
-				case token.LEQ:
-					r = Interval{0, k, true}
-				case token.EQL:
-					r = exactly(k)
-				}
-			}
-			continue
+		k = kk
+		switch op {
+		case token.LSS:
+			op = token.GTR
+		case token.GTR:
+			op = token.LSS
+		case token.LEQ:
+			op = token.GEQ
+		case token.GEQ:
+			op = token.LEQ
 		}
+	} else {
+		return r
+	}
+	if !taken {
 		switch op {
 		case token.EQL:
-			r = exactly(k)
+			op = token.NEQ
 		case token.NEQ:
-			if r.Lo == k {
-				r.Lo++
-			}
-			if r.Hi == k {
-				r.Hi--
-			}
+			op = token.EQL
 		case token.LSS:
-			r.Hi = min64(r.Hi, k-1)
-		case token.LEQ:
-			r.Hi = min64(r.Hi, k)
-		case token.GTR:
-			r.Lo = max64(r.Lo, k+1)
+			op = token.GEQ
 		case token.GEQ:
-			r.Lo = max64(r.Lo, k)
+			op = token.LSS
+		case token.GTR:
+			op = token.LEQ
+		case token.LEQ:
+			op = token.GTR
+		default:
+			return r
 		}
+	}
+	if !r.Known {
+		// comparisons alone can establish a bound for unsigned values
+		if isUnsignedT(v.Type()) {
+			switch op {
+			case token.LSS:
+				r = Interval{0, k - 1, true}
+			case token.LEQ:
+				r = Interval{0, k, true}
+			case token.EQL:
+				r = exactly(k)
+			}
+		}
+		return r
+	}
+	switch op {
+	case token.EQL:
+		r = exactly(k)
+	case token.NEQ:
+		if r.Lo == k {
+			r.Lo++
+		}
+		if r.Hi == k {
+			r.Hi--
+		}
+	case token.LSS:
+		r.Hi = min64(r.Hi, k-1)
+	case token.LEQ:
+		r.Hi = min64(r.Hi, k)
+	case token.GTR:
+		r.Lo = max64(r.Lo, k+1)
+	case token.GEQ:
+		r.Lo = max64(r.Lo, k)
 	}
 	return r
 }
